@@ -41,9 +41,12 @@ const (
 )
 
 type TagInfo struct {
-	Key         string
-	Value       string
-	JSONName    string
+	Key      string
+	Value    string
+	JSONName string
+	// JSONExact: a sibling field has a json name that differs from this one only in
+	// case; a body key belongs to the field that spells it exactly
+	JSONExact   bool
 	Required    bool
 	Skip        bool
 	Default     string
@@ -195,4 +198,29 @@ func getFieldTagInfoByTag(field reflect.StructField, tag string) []TagInfo {
 	}
 
 	return tagInfos
+}
+
+// jsonNameOf returns the name the body decoder knows the field by.
+func jsonNameOf(field reflect.StructField) string {
+	name, _ := head(field.Tag.Get(jsonTag), ",")
+	if name == "" {
+		name = field.Name
+	}
+	return name
+}
+
+// hasCaseTwin reports whether another field of the struct has a json name that equals
+// the one of field i ignoring case only.
+func hasCaseTwin(st reflect.Type, field reflect.StructField) bool {
+	name := jsonNameOf(field)
+	for i := 0; i < st.NumField(); i++ {
+		other := st.Field(i)
+		if other.Name == field.Name {
+			continue
+		}
+		if on := jsonNameOf(other); on != name && strings.EqualFold(on, name) {
+			return true
+		}
+	}
+	return false
 }
